@@ -217,10 +217,52 @@ def names(run):
     return out
 
 
+GEN_PROGRAMS = {
+    "hbuff": "10 HBUFF 1,100\n20 HGET(0,0)-(10,10),1\n30 HPUT(0,0)-(10,10),1,PSET\n40 AB$=\"X\":C=1:PI1=2\n",
+    "joystk": "10 A=JOYSTK(0)+JOYSTK(1):JO=1:J0=2\n",
+    "handlers": "10 ON ERR GOTO 100\n20 ON BRK GOTO 100\n30 ER=ERNO:E=1\n100 END\n",
+    "play": "10 PLAY \"CDE\":PL=1:P$=\"X\"\n20 SOUND 1,1:DI=2:D$=\"Y\"\n",
+    "temps": "10 TM=INT(T)+VAL(T$):TMP=1:T1=2\n20 PRINT STR$(TM);HEX$(T1)\n",
+}
+
+
+def judge_generated(name):
+    """programs that make the tool emit its own identifiers: none of them may be initialised / declared like a user variable,
+    and every initialised name must be a user name of the source"""
+    text = GEN_PROGRAMS[name]
+    v = []
+    for opts in ({"initialize_vars": True}, {"initialize_vars": True, "default_str_storage": 80}, {"initialize_vars": True, "output_dependencies": True, "procname": "p"}):
+        r = tool.convert(text, **opts)
+        if not r.ok:
+            continue
+        body = r.text.replace("\r\n", "\n").replace("\r", "\n")
+        idx = [m.start() for m in re.finditer(r"(?im)^procedure\s", body)]
+        if idx:
+            body = body[idx[-1]:]
+        for ln in body.split("\n"):
+            m = re.match(r"\s*([A-Za-z_][A-Za-z0-9_]*\$?)\s*:=\s*(0\.0|0|\"\")\s*$", ln)
+            if not m:
+                continue
+            ident = m.group(1)
+            if GENERATED.match(ident) or not USER_ID.match(ident):
+                v.append(("generated-identifier-initialised", f"{name}: the pre-initialisation prologue treats the tool's own identifier {ident!r} as a user variable ({ln.strip()!r})"))
+        decl = re.findall(r"(?im)^\s*dim\s+(pid|display|play|erno)\s*:", body)
+        for g in ("pid", "display", "play", "erno"):
+            if [d.lower() for d in decl].count(g) > 1:
+                v.append(("generated-identifier-declared-twice", f"{name}: {g} is declared {[d.lower() for d in decl].count(g)} times"))
+    return v
+
+
 def run(run):
     run.rule = ("one program per name holding the name in all four kinds in 13 positions; names = all of [A-Z][A-Z0-9]{0,2} (+ length 4 with last char in {A,Z,0,9} in thorough); "
                 "distinct = names; non-trivial = accepted by the tool (refused names are counted)")
     run.assumptions = ["Color BASIC identity: first two characters + type suffix + kind", "generated identifiers: tmp_N[$], display, play, pid, erno, errnum, joy0x.."]
+    for gname in sorted(GEN_PROGRAMS):
+        run.states += 1
+        run.transitions += 1
+        run.evaluations += 3
+        for sym, detail in judge_generated(gname):
+            run.violation(sym, {"generated", "prog:" + gname}, {"generated": gname}, detail)
     ns = names(run)
     sp = [("special", n) for n in special_names()]
     sp += [("implicit", n) for n in ns if len(n) <= 2]
@@ -258,5 +300,7 @@ def run(run):
 
 
 def replay(case):
+    if case.get("generated"):
+        return {"violations": [list(x) for x in judge_generated(case["generated"])]}
     o, v = judge(("special", case["name"]) if case.get("special") else (("implicit", case["name"]) if case.get("implicit") else case["name"]))
     return {"outcome": o, "violations": v if isinstance(v, list) else [v]}
